@@ -300,3 +300,29 @@ Proof.
   unfold adjust_bound. destruct lo' as [zl|], hi' as [zh|]; split_ifs; lia.
 Qed.
 
+
+(* ---- signum64: the bit-level text of eval.go equals the sign used by the loops *)
+Lemma signum_bits_sgn : forall x, in_int64 x = true -> signum_bits x = Z.sgn x.
+Proof.
+  intros x Hx. unfold in_int64, min_int64, max_int64 in Hx. unfold signum_bits.
+  rewrite !Z.shiftr_div_pow2 by lia. change (2 ^ 63) with 9223372036854775808.
+  destruct (Z.compare_spec x 0) as [->|Hneg|Hpos].
+  - reflexivity.
+  - (* x < 0 *)
+    assert (Hq : x / 9223372036854775808 = -1).
+    { symmetry. apply (Z.div_unique x 9223372036854775808 (-1) (x + 9223372036854775808)); lia. }
+    rewrite Hq. change (wrapu64 (-1)) with 18446744073709551615.
+    assert (Hw : wrapu64 (- x) = - x) by (unfold wrapu64; apply Z.mod_small; lia).
+    rewrite Hw.
+    destruct (Z.eq_dec x (-9223372036854775808)) as [->|Hne].
+    + reflexivity.
+    + rewrite (Z.div_small (- x)) by lia. rewrite Z.sgn_neg by lia. reflexivity.
+  - (* x > 0 *)
+    rewrite (Z.div_small x) by lia. change (wrapu64 0) with 0.
+    assert (Hw : wrapu64 (- x) = 18446744073709551616 - x).
+    { unfold wrapu64. symmetry. apply (Z.mod_unique (- x) 18446744073709551616 (-1)); lia. }
+    rewrite Hw.
+    assert (Hq : (18446744073709551616 - x) / 9223372036854775808 = 1).
+    { symmetry. apply (Z.div_unique _ 9223372036854775808 1 (9223372036854775808 - x)); lia. }
+    rewrite Hq. rewrite Z.sgn_pos by lia. reflexivity.
+Qed.
